@@ -5,6 +5,7 @@ package world
 
 import (
 	"bytes"
+	"crypto/sha256"
 	"fmt"
 	"runtime"
 	"sort"
@@ -252,3 +253,6 @@ func (n *Net) setDispatcher(id uint16, g uint64) {
 	n.dispatcherGID[id] = g
 	n.mu.Unlock()
 }
+
+// Sha is sha256 as a slice.
+func Sha(b []byte) []byte { h := sha256.Sum256(b); return h[:] }
